@@ -127,6 +127,34 @@ pub fn withdraw_tx(fx: &NodeFx, inp: &str, fund: u64) -> Option<(TestFundingTxCo
     Some((t, tx))
 }
 
+/// The ChannelSetup that `Setup(d)` asks for: funded by the transaction that Withdraw(fund = d) asks the signer to
+/// sign (exactly what `apply`'s Setup arm uses; shared with the protocol-handler level driver `nhand`).
+pub fn setup_of(fx: &NodeFx, d: u64) -> lightning_signer::channel::ChannelSetup {
+    let mut setup = test_setup(3_000_000, 0, CommitmentType::StaticRemoteKey, 0x20 + d as u8);
+    if let Some((_, tx)) = withdraw_tx(fx, "wpkh", d) {
+        setup.funding_outpoint = bitcoin::OutPoint { txid: tx.compute_txid(), vout: 0 };
+    }
+    setup
+}
+
+/// Counterparty signatures on the initial holder commitment (number 0, 2 999 000 sat to the holder, no HTLCs) of the
+/// READY channel d - the commitment `apply`'s Setup arm validates.  Read-only.
+pub fn initial_commitment_sigs(
+    fx: &NodeFx,
+    d: u64,
+    setup: &lightning_signer::channel::ChannelSetup,
+) -> (bitcoin::secp256k1::ecdsa::Signature, Vec<bitcoin::secp256k1::ecdsa::Signature>) {
+    use lightning_signer::util::test_utils::{
+        channel_commitment, counterparty_sign_holder_commitment, make_test_counterparty_keys, TestChannelContext,
+    };
+    let id = chan_id(d);
+    let nctx = fx.node_ctx();
+    let counterparty_keys = make_test_counterparty_keys(&nctx, &id, setup.channel_value_sat);
+    let cc = TestChannelContext { channel_id: id, setup: setup.clone(), counterparty_keys };
+    let mut t = channel_commitment(&nctx, &cc, 0, 0, 2_999_000, 0, vec![], vec![]);
+    counterparty_sign_holder_commitment(&nctx, &cc, &mut t)
+}
+
 pub fn apply(fx: &NodeFx, r: &Value) -> Value {
     let op = r["op"].as_str().unwrap();
     let list = || -> Vec<String> {
